@@ -338,11 +338,23 @@ class BaseModel(metaclass=ModelMeta):
         return new
 
     def model_dump_json(self, **kw):
-        raise sym.Unsupported("model_dump_json under symbolic execution (JSON layer is pydantic's)")
+        # the JSON layer is pydantic's (checked natively, C16): under the engine the text is a token that stands
+        # for "the JSON of this object"; writing it to a (ghost) file records which object was written
+        return GhostJson(self, kw)
 
     @classmethod
     def model_validate_json(cls, s):
         raise sym.Unsupported("model_validate_json under symbolic execution (JSON layer is pydantic's)")
+
+
+class GhostJson(str):
+    """stands for the JSON text of a model object (never parsed under the engine)"""
+
+    def __new__(cls, model, kw):
+        o = str.__new__(cls, f"<json of {type(model).__name__}>")
+        o.model = model
+        o.kw = dict(kw)
+        return o
 
 
 def model_serializer(*a, **kw):
